@@ -207,6 +207,9 @@ def generate(rng, tier):
         elif r < 0.405:
             # parse, then assign to the nested instance: equal parsed instances take the same assignment alike
             ops.append({"op": "nested_assign", "value": rng.choice(["2", 3, "zz"])})
+        elif r < 0.41:
+            # an instance made by __from__, initialised again after an initialisation that was refused
+            ops.append({"op": "reinit", "cls": "NIn", "bad": rng.choice(["zz", None, [1]]), "good": rng.choice([2, "3"])})
         elif r < 0.42:
             ops.append({"op": "init", "cls": "Own", "data": rng.choice([{"pet": {"kind": "cat"}}, {}, {"pet": {"name": "rex"}}])})
         elif r < 0.435:
@@ -413,6 +416,20 @@ def run_op(world, op, inputs_out=None, prebuilt=None):
                 raise AssertionError(f"equal nested instances took the assignment differently: {outs[0]} vs {outs[1]}")
             return kernel.jdump(outs[0])
         return _outcome(both)
+    if k == "reinit":
+        cls = world.get(op["cls"])
+
+        def both():
+            def second(after_failed):
+                inst = cls.__from__({"a": 1})
+                if after_failed:
+                    _outcome(lambda: inst.__init__(a=op["bad"]))
+                return _outcome(lambda: [inst.__init__(a=op["good"]), inst][1])[1]
+            a, b = second(True), second(False)
+            if a != b:
+                raise AssertionError(f"initialisation of an instance made by __from__ gives {a} after a refused one, {b} without")
+            return kernel.jdump(a)
+        return _outcome(both)
     if k == "other_module":
         data = _val(op["data"])
 
@@ -509,6 +526,8 @@ def execute(plan):
         if k == "nested_assign" and out[:2] == ["exc", "AssertionError"]:
             # P4: the outcome of the assignment is a function of declaration, options and the (equal) data
             res.violate("C19|P4|nested_assign|equal_instances_take_assignment_differently", f"op #{n} {op}: {out[2]}")
+        if k == "reinit" and out[:2] == ["exc", "AssertionError"]:
+            res.violate("C19|P4|reinit|refused_initialisation_changes_the_next", f"op #{n} {op}: {out[2]}")
         if k == "init" and inputs:
             kept_inputs[n] = inputs[0]
         hook_fired = faults.STATE.fired.get("hook_fail", 0) - fired0.get("hook_fail", 0)
